@@ -12,6 +12,7 @@ import (
 	metav1 "k8s.io/apimachinery/pkg/apis/meta/v1"
 	"k8s.io/apimachinery/pkg/apis/meta/v1/unstructured"
 	"k8s.io/apimachinery/pkg/runtime"
+	"k8s.io/apimachinery/pkg/types"
 	"k8s.io/apimachinery/pkg/util/intstr"
 	"k8s.io/cli-runtime/pkg/resource"
 	apisv1a "sigs.k8s.io/network-policy-api/apis/v1alpha1"
@@ -77,7 +78,8 @@ func (w *World) Infos() []*resource.Info {
 		}
 	}
 	for _, np := range w.NPs {
-		res = append(res, info(np.K8s(), "networking.k8s.io/v1", "NetworkPolicy"))
+		np := np
+		res = append(res, InfoNP(&np))
 	}
 	for _, a := range w.ANPs {
 		res = append(res, info(a.K8s(), "policy.networking.k8s.io/v1alpha1", "AdminNetworkPolicy"))
@@ -89,7 +91,7 @@ func (w *World) Infos() []*resource.Info {
 }
 
 func (np *NP) K8s() *netv1.NetworkPolicy {
-	o := &netv1.NetworkPolicy{ObjectMeta: metav1.ObjectMeta{Name: np.Name, Namespace: np.NS}}
+	o := &netv1.NetworkPolicy{ObjectMeta: metav1.ObjectMeta{Name: np.Name, Namespace: np.NS, UID: types.UID(np.UID)}}
 	o.Spec.PodSelector = *np.PodSel.k8s()
 	for _, t := range np.Types {
 		o.Spec.PolicyTypes = append(o.Spec.PolicyTypes, netv1.PolicyType(t))
@@ -365,7 +367,42 @@ func (w *World) Compare(tr ToolResult) []string {
 func InfoNS(n NS) *resource.Info {
 	return info(&corev1.Namespace{ObjectMeta: metav1.ObjectMeta{Name: n.Name, Labels: n.Labels}}, "v1", "Namespace")
 }
-func InfoNP(np *NP) *resource.Info { return info(np.K8s(), "networking.k8s.io/v1", "NetworkPolicy") }
+func InfoNP(np *NP) *resource.Info {
+	inf := info(np.K8s(), "networking.k8s.io/v1", "NetworkPolicy")
+	m := inf.Object.(*unstructured.Unstructured).Object
+	spec, _ := m["spec"].(map[string]interface{})
+	if spec == nil {
+		return inf
+	}
+	// explicit empty lists (dropped by omitempty when converting the typed object)
+	if len(np.Ingress) == 0 && np.IngressEmptyList {
+		spec["ingress"] = []interface{}{}
+	}
+	if len(np.Egress) == 0 && np.EgressEmptyList {
+		spec["egress"] = []interface{}{}
+	}
+	fix := func(key, peerKey string, rules []NPRule) {
+		l, _ := spec[key].([]interface{})
+		for i := range rules {
+			if i >= len(l) {
+				break
+			}
+			rm, _ := l[i].(map[string]interface{})
+			if rm == nil {
+				continue
+			}
+			if len(rules[i].Peers) == 0 && rules[i].PeersEmptyList {
+				rm[peerKey] = []interface{}{}
+			}
+			if len(rules[i].Ports) == 0 && rules[i].PortsEmptyList {
+				rm["ports"] = []interface{}{}
+			}
+		}
+	}
+	fix("ingress", "from", np.Ingress)
+	fix("egress", "to", np.Egress)
+	return inf
+}
 func InfoANP(a *ANP) *resource.Info {
 	return info(a.K8s(), "policy.networking.k8s.io/v1alpha1", "AdminNetworkPolicy")
 }
